@@ -165,6 +165,33 @@ def replay_wyckoff_supercells():
     return {"reproduced": False}
 
 
+def replay_flag(groups=(194, 139, 166, 47, 225, 62, 221)):
+    """has-free-parameters flag against the sets actually reported: crystals that occupy a parameter-free letter and a letter with a
+    parameter (no pinning general position, which would make the flag trivially true)"""
+    import itertools
+    INFO, WY, NZ = tabvc.load_tables()
+    for sg in groups:
+        letters = _chiral_probe(sg)[:-1]
+        fixed = [l for l in letters if not WY[sg][l]["variables"]][:3]
+        free = [l for l in letters if WY[sg][l]["variables"]][:4]
+        for occ in [[(a, 29, None), (b, 47, {"x": 0.2113, "y": 0.0687, "z": 0.3391})] for a, b in itertools.product(fixed, free)] + [[(a, 29, None)] for a in fixed[:2]]:
+            try:
+                at = probe(sg, occ)
+                if len(at) > 200:
+                    continue
+                a = analyze(at)
+                flag = bool(a.get_has_free_wyckoff_parameters())
+                sets = a.get_wyckoff_sets_conventional(return_parameters=True)
+                has = any(v is not None for ws in sets for v in (ws.x, ws.y, ws.z))
+                if flag != has:
+                    return {"reproduced": True, "probe": {"sg": sg, "occupied": [o[0] for o in occ], "detected_sg": int(a.get_space_group_number())},
+                            "observed": "get_has_free_wyckoff_parameters() = %s but the reported sets %s a parameter (%s)" % (
+                                flag, "carry" if has else "carry no", [(ws.wyckoff_letter, ws.x, ws.y, ws.z) for ws in sets][:4])}
+            except Exception:
+                continue
+    return {"reproduced": False}
+
+
 def check_wyckoff_params(atoms, res):
     INFO, WY, NZ = tabvc.load_tables()
     try:
